@@ -19,6 +19,7 @@ fn cfg(tier: Tier, index: u64) -> HistCfg {
     let mut w = Weights::basic();
     w.flush = 2;
     w.reopen = 2;
+    w.burst = if index % 25 == 9 { 1 } else { 0 };
     let n_ops = if huge {
         50000..=100000
     } else if long {
@@ -51,22 +52,21 @@ fn cfg(tier: Tier, index: u64) -> HistCfg {
         phases: false,
         special_keys: false,
         default_table: false,
+        big_table: None,
     };
     // every 40th case: hundreds of keys in a table of 1..4 buckets (chains beyond 256 entries)
     if index % 40 == 13 && !huge {
         make_dense(&mut c, tier == Tier::Thorough);
     }
+    if index % 800 == 213 {
+        make_very_dense(&mut c);
+    }
     // rarely reached regions
     c.phases = index % 10 == 4;
     c.special_keys = index % 8 == 3;
-    if index % 50 == 21 {
-        // value file beyond 2 MiB (offset fields grow again)
-        c.prelude = Prelude::Inflate { val_bytes: 2_200_000, key_bytes: 0 };
-    } else if index % 200 == 33 {
-        // key file beyond 2 MiB
-        c.kts = vec![Kt::Bytes, Kt::String];
-        c.prelude = Prelude::Inflate { val_bytes: 0, key_bytes: 2_200_000 };
-    } else if index % 3000 == 77 && !huge {
+    // files beyond 2 MiB / 16 MiB, thousands of free large slots
+    rare_regions(&mut c, index);
+    if index % 3000 == 77 && !huge {
         // the default 16 Mi bucket table
         c.default_table = true;
         c.ops.n_ops = 1..=120;
@@ -169,6 +169,7 @@ fn enum_history(seq: &[usize]) -> History {
             ..Default::default()
         },
         excluded: 0,
+        quiet_prefix: 0,
     }
 }
 
@@ -191,7 +192,7 @@ impl Prop for C01 {
         n_random(tier) + ENUM_CHUNKS
     }
     fn timeout_s(&self, tier: Tier) -> u64 {
-        tier.pick(60, 180)
+        tier.pick(150, 400)
     }
     fn run_case(&self, tier: Tier, seed: u64, index: u64, w: &WCtx) -> CaseOut {
         let nr = n_random(tier);
